@@ -43,6 +43,10 @@ pub struct Scn {
     /// setter is also called once more, earlier, with another value (the last call wins)
     #[serde(default)]
     pub order: u64,
+    /// the wrapped service takes only this many calls at a time (readiness waits for a free
+    /// slot, as tower's ConcurrencyLimit does); only the window rules are applied then
+    #[serde(default)]
+    pub inner_capacity: Option<u32>,
 }
 
 pub fn gen(rng: &mut Rng) -> Scn {
@@ -84,7 +88,15 @@ pub fn gen(rng: &mut Rng) -> Scn {
             callers.push(Caller { start_ms: t2, lat_ms: 0, err: false, cancel: CancelSpec::Never, svc: 0 });
         }
     }
+    let inner_capacity = if rng.chance(1, 6) { Some(rng.range(1, 2) as u32) } else { None };
+    if inner_capacity.is_some() {
+        for c in callers.iter_mut() {
+            c.lat_ms = *rng.pick(&[5u64, 20, 60, 120]);
+            c.cancel = CancelSpec::Never;
+        }
+    }
     Scn {
+        inner_capacity,
         order: if rng.chance(1, 3) { rng.next_u64() | 1 } else { 0 },
         two_services,
         window,
@@ -106,10 +118,12 @@ pub fn valid(s: &Scn) -> bool {
         && (s.timeout_ms <= 400 || s.timeout_ms == u64::MAX)
         && !s.callers.is_empty()
         && s.callers.len() <= 20
-        && s.callers.iter().all(|c| c.start_ms <= 2000 && c.lat_ms <= 50)
+        && s.callers.iter().all(|c| c.start_ms <= 2000 && (c.lat_ms <= 50 || s.inner_capacity.is_some()))
         && s.knobs.jumps.len() <= 3
         && s.knobs.jumps.iter().all(|j| j.0 <= 1000 && j.1 <= 200)
         && s.callers.iter().all(|c| c.svc <= 1 && (s.two_services || c.svc == 0))
+        && s.inner_capacity.map(|c| c >= 1 && c <= 4).unwrap_or(true)
+        && s.callers.iter().all(|c| c.lat_ms <= 200)
 }
 
 /// Is there a cut of the time line into consecutive windows, each at least `p` long, each with
@@ -163,6 +177,12 @@ pub fn run(s: &Scn, ctx: &mut RunCtx, prefix: &'static str) -> RunOutput {
                 );
             }
         });
+        if let Some(c) = scn.inner_capacity {
+            world::with(|w| {
+                w.script.capacity.insert(0, c as i64);
+                w.script.capacity.insert(1, c as i64);
+            });
+        }
         let mut b = RateLimiterLayer::builder();
         let mut order: Vec<usize> = (0..4).collect();
         if scn.order != 0 {
@@ -293,6 +313,23 @@ pub fn run(s: &Scn, ctx: &mut RunCtx, prefix: &'static str) -> RunOutput {
     }
     for (i, t) in rep.tasks.iter().enumerate() {
         if t.first_poll_seq == 0 || !mine_task(i) {
+            continue;
+        }
+        if s.inner_capacity.is_some() {
+            // arrival-relative timing says nothing when the wrapped service made the caller wait
+            let mine = calls.iter().filter(|c| c.req == i as u32).count();
+            if mine > 1 {
+                world::violation("C15.admitted_once", "", format!("caller {} reached the inner service {} times", i, mine));
+            }
+            if t.status == Status::Resolved && t.out.as_ref().and_then(|o| o.err) == Some("RateLimited") {
+                any_rejected = true;
+                if mine > 0 {
+                    world::violation("C15.rejected_never_inner", "", format!("rejected caller {} reached the inner service", i));
+                }
+            }
+            if mine > 0 && calls.iter().any(|c| c.req == i as u32 && c.start_us > t.first_poll_us) {
+                any_waited = true;
+            }
             continue;
         }
         let a = t.first_poll_us;
@@ -491,13 +528,26 @@ macro_rules! rl_prop {
             fn id(&self) -> &'static str {
                 $id
             }
+            fn engine(&self) -> &'static str {
+                "asim + tsim (shuttle)"
+            }
             fn gen(&self, rng: &mut Rng, _t: Tier) -> Value {
+                // one run in eight drives the limiter from several threads (engine B)
+                if rng.chance(1, 8) {
+                    return serde_json::to_value(super::svcthreads::gen_rl(rng)).unwrap();
+                }
                 serde_json::to_value(gen(rng)).unwrap()
             }
             fn valid(&self, v: &Value) -> bool {
+                if super::svcthreads::is_threads(v) {
+                    return super::svcthreads::valid_json(v) && matches!(parse::<super::svcthreads::ScnT>(v).map(|s| s.kind), Some(super::svcthreads::Kind::RateLimiter { .. }));
+                }
                 parse::<Scn>(v).map(|s| valid(&s)).unwrap_or(false)
             }
             fn run(&self, v: &Value, ctx: &mut RunCtx) -> RunOutput {
+                if super::svcthreads::is_threads(v) {
+                    return super::svcthreads::run_json(v, ctx, $id);
+                }
                 run(&parse::<Scn>(v).unwrap(), ctx, $id)
             }
             fn runs(&self, t: Tier) -> u64 {
